@@ -188,7 +188,7 @@ let schedule_of (tr : trace) : schedule =
   ignore n;
   { sc_prefix = Array.to_list (Array.sub tr.evs 0 !last); sc_steady = [EvEdge] }
 
-let run_cert fa fb tracefile budget =
+let run_cert mode fa fb tracefile budget =
   let tagp = Printf.sprintf "%s %s" (Filename.basename fa) (Filename.basename fb) in
   match (try Ok (build_netlist (parse_net fa), build_netlist (parse_net fb)) with Unsupported s -> Error s) with
   | Error s -> Printf.printf "CERT %s UNSUPPORTED %s\n" tagp s
@@ -217,9 +217,9 @@ let run_cert fa fb tracefile budget =
           List.iter (fun s ->
             List.iter (fun i ->
               incr work; if !work > budget then raise Toobig;
-              let (ok, _) = obs a b s i in
+              let (ok, _) = obs mode a b s i in
               if not ok then raise (Cex (path s [] @ [(s, i)]));
-              let s' = pnext a b evs s i in
+              let s' = pnext mode a b evs s i in
               if not (Hashtbl.mem next s') then begin
                 Hashtbl.replace next s' ();
                 if not (Hashtbl.mem parent s') then Hashtbl.replace parent s' (Some (s, i))
@@ -244,7 +244,7 @@ let run_cert fa fb tracefile budget =
         let all_layers = List.rev (steady_l :: List.tl !layers) in
         let nstates = List.fold_left (fun acc l -> acc + List.length l) 0 all_layers in
         (* the verified checker decides *)
-        let ok = check_cert a b sc ws all_layers in
+        let ok = check_cert mode a b sc ws all_layers in
         Printf.printf "CERT %s %s states=%d inputs=%d prefix=%d evals=%d\n" tagp (if ok then "OK" else "REJECTED") nstates ninputs m !work
       with
       | Toobig -> Printf.printf "CERT %s TOOBIG inputs=%d\n" tagp ninputs
@@ -255,11 +255,12 @@ let run_cert fa fb tracefile budget =
         Printf.printf "CERT %s FAIL cycle=%d stimulus=%s outA=%s outB=%s clean=%b\n" tagp (List.length p - 1)
           (String.concat ";" stim)
           (String.concat "," (List.map string_of_bv (outputs a va))) (String.concat "," (List.map string_of_bv (outputs b vb)))
-          (snd (obs a b s i)))
+          (snd (obs mode a b s i)))
 
 let rec dispatch = function
   | ["tie"; n; t] -> run_tie n t
-  | ["cert"; a; b; t; bud] -> run_cert a b t (int_of_string bud)
+  | ["cert"; a; b; t; bud] -> run_cert MRefine a b t (int_of_string bud)
+  | ["cert"; m; a; b; t; bud] -> run_cert (match m with "strict" -> MStrict | "compat" -> MCompat | _ -> MRefine) a b t (int_of_string bud)
   | ["batch"; f] -> List.iter (fun l -> (try dispatch (split l) with e -> Printf.printf "ERROR %s : %s\n" l (Printexc.to_string e)); flush stdout) (read_lines f)
   | _ -> prerr_endline "usage: tie|cert|batch"; exit 2
 
